@@ -40,10 +40,10 @@ theorem gapOk_le (best : Nat) (lb : Int) (tol : Rat) (h1 : tol ≤ 1) (h2 : tol 
 
 /-! ### the loop, for every node solver -/
 
-theorem bpLoop_early (solve : Solver) (eps gapTol : Rat) (lb : Int) (maxNodes : Nat) :
+theorem bpLoop_early (solve : Solver) (eps gapTol : Rat) (lb : Int) (maxNodes : Nat) (stop : Nat → Bool) :
     ∀ (fuel : Nat) (st : BpSt) (s : String),
-      (bpLoop solve eps gapTol lb maxNodes fuel st).2 = some s →
-      s = "OPTIMAL" ∧ ∃ p, (bpLoop solve eps gapTol lb maxNodes fuel st).1.best = some p ∧
+      (bpLoop solve eps gapTol lb maxNodes stop fuel st).2 = some s →
+      s = "OPTIMAL" ∧ ∃ p, (bpLoop solve eps gapTol lb maxNodes stop fuel st).1.best = some p ∧
         gapOk (rolls p) lb gapTol = true := by
   intro fuel
   induction fuel with
@@ -65,31 +65,35 @@ theorem bpLoop_early (solve : Solver) (eps gapTol : Rat) (lb : Int) (maxNodes : 
         · rename_i hg
           rw [if_neg hg] at h
           split
-          · rename_i ho; rw [ho] at h; exact ih _ s h
-          · rename_i obj ho
-            rw [ho] at h
-            dsimp only at h ⊢
+          · rename_i hst; rw [if_pos hst] at h; cases h
+          · rename_i hst
+            rw [if_neg hst] at h
             split
-            · rename_i hg2; rw [if_pos hg2] at h; exact ih _ s h
-            · rename_i hg2
-              rw [if_neg hg2] at h
+            · rename_i ho; rw [ho] at h; exact ih _ s h
+            · rename_i obj ho
+              rw [ho] at h
+              dsimp only at h ⊢
               split
-              · rename_i hm
-                rw [hm] at h
-                dsimp only at h ⊢
+              · rename_i hg2; rw [if_pos hg2] at h; exact ih _ s h
+              · rename_i hg2
+                rw [if_neg hg2] at h
                 split
-                · rename_i hb
-                  rw [if_pos hb] at h
+                · rename_i hm
+                  rw [hm] at h
+                  dsimp only at h ⊢
                   split
-                  · rename_i hgap
-                    rw [if_pos hgap] at h
-                    cases h
-                    exact ⟨rfl, _, rfl, hgap⟩
-                  · rename_i hgap; rw [if_neg hgap] at h; exact ih _ s h
-                · rename_i hb; rw [if_neg hb] at h; exact ih _ s h
-              · rename_i idx val hm
-                rw [hm] at h
-                exact ih _ s h
+                  · rename_i hb
+                    rw [if_pos hb] at h
+                    split
+                    · rename_i hgap
+                      rw [if_pos hgap] at h
+                      cases h
+                      exact ⟨rfl, _, rfl, hgap⟩
+                    · rename_i hgap; rw [if_neg hgap] at h; exact ih _ s h
+                  · rename_i hb; rw [if_neg hb] at h; exact ih _ s h
+                · rename_i idx val hm
+                  rw [hm] at h
+                  exact ih _ s h
 
 /-- C17, `solve_bp` status rule, for EVERY node solver (whatever `_solve_node_lp` returns):
 the status is one of three; a usable status comes with a plan whose rolls are the objective;
@@ -97,7 +101,7 @@ the status is one of three; a usable status comes with a plan whose rolls are th
 the incumbent passes the gap test against the lower bound `lb`; and `lb` is `⌈root LP − eps⌉`
 for a converged root and 0 otherwise. -/
 theorem bpRun_rule (solve : Solver) (cols0 : List Pat) (d : List Nat) (eps gapTol : Rat) (maxIter maxNodes : Nat)
-    (o : BpOut) (ho : bpRun solve cols0 d eps gapTol maxIter maxNodes = o) :
+    (stop : Nat → Bool) (o : BpOut) (ho : bpRun solve cols0 d eps gapTol maxIter maxNodes stop = o) :
     (o.status = "OPTIMAL" ∨ o.status = "FEASIBLE" ∨ o.status = "INFEASIBLE") ∧
     ((o.status = "OPTIMAL" ∨ o.status = "FEASIBLE") → ∃ p, o.plan = some p ∧ o.total = rolls p) ∧
     (o.status = "OPTIMAL" → (o.rootIntegral = true ∧ o.rootConverged = true) ∨
@@ -134,7 +138,7 @@ theorem bpRun_rule (solve : Solver) (cols0 : List Pat) (d : List Nat) (eps gapTo
       · intro q hq; cases hq; rfl
     · -- tree search
       generalize hloop : bpLoop solve eps gapTol
-        (if decide ((solve cols0 []).iters < maxIter) = true then (obj - eps).ceil else 0) maxNodes
+        (if decide ((solve cols0 []).iters < maxIter) = true then (obj - eps).ceil else 0) maxNodes stop
         (2 * maxNodes + 2)
         ⟨(solve cols0 []).cols, [(obj, 0, [])], 1,
           roundSolution (solve cols0 []).xs (solve cols0 []).cols d eps, 0, false⟩ = res at ho
@@ -144,7 +148,7 @@ theorem bpRun_rule (solve : Solver) (cols0 : List Pat) (d : List Nat) (eps gapTo
       | some s =>
         dsimp only at ho
         subst ho
-        have := bpLoop_early solve eps gapTol _ maxNodes _ _ s (by rw [hloop])
+        have := bpLoop_early solve eps gapTol _ maxNodes stop _ _ s (by rw [hloop])
         rw [hloop] at this
         obtain ⟨hs, p, hp, hg⟩ := this
         dsimp only at hp
